@@ -160,7 +160,14 @@ def check_tracked(ctx, sc, stratum="tracked"):
     from vf.oracles.extops import check_ext
 
     T = {"q": tys.Qubit, "b": tys.Bool}
-    td = TrackedDfg(*[T[t] for t in sc["tys"]], track_inputs=True)
+    if len(sc["steps"]) % 2:
+        td = TrackedDfg(*[T[t] for t in sc["tys"]], track_inputs=True)
+    else:
+        # the default construction; the inputs are tracked afterwards (several such builders in one process must not
+        # share anything)
+        ctx.feat("feature:tracked-inputs-tracked-later")
+        td = TrackedDfg(*[T[t] for t in sc["tys"]])
+        td.track_inputs()
     for name, args in sc["steps"]:
         if name == "SwapWire":
             b, q = args
